@@ -8,7 +8,7 @@ number an `encoded_len` body announces, as linear forms over atoms
 Forms are compared as normalised strings."""
 import re
 
-from core import ExprBuilder, callee_name, expr_str, short, strip_generics, natural_loops, dominators
+from core import ExprBuilder, callee_name, expr_str, short, strip_generics, natural_loops, dominators, places_in, walk
 from common import simp
 
 MAXP = 400
@@ -320,13 +320,58 @@ class Lengths:
                     if stop is None:
                         finals.append(env)
                     continue
+                dkey = self._decision_key(fn, ebf, t) if t["k"] == "switch" else None
                 fr = self._freeze(env)
                 for s_, _lab in fn.succs(b):
                     if s_ in oset:
-                        states.setdefault(s_, set()).add(fr)
+                        fr2 = fr
+                        if dkey is not None and _lab is not None:
+                            # two tests of the same immutable value on one path agree
+                            env2 = self._decide(env, dkey, _lab)
+                            if env2 is None:
+                                continue
+                            fr2 = self._freeze(env2)
+                        states.setdefault(s_, set()).add(fr2)
                         if len(states[s_]) > MAXP:
                             raise Unknown("too many paths in %s" % short(fn.norm))
         return finals
+
+    def _decision_key(self, fn, ebf, t):
+        """Text of a switch discriminant that cannot change during the call: built only from immutable
+        parameters (and fields of them)."""
+        e = ebf.operand(t["discr"])
+        ps = places_in(e)
+        if not ps or any(x[0] not in ("place", "discr", "ref", "cast", "proj") for x in walk(e)):
+            return None
+        params = {vn for vn, l, pj in fn.var_places if not pj and 1 <= l <= fn.arg_count and not fn.locals[l]["mut"]}
+        for p_ in ps:
+            root = re.split(r"[.@\[]", p_)[0]
+            if root not in params:
+                return None
+            l = [l for vn, l, pj in fn.var_places if vn == root and not pj][0]
+            if (fn.locals[l]["ty"] or "").startswith("&mut"):
+                return None
+        return expr_str(e)
+
+    def _decide(self, env, dkey, lab):
+        cur = dict(env.get("?d", ()))
+        old = cur.get(dkey)
+        new = ("=", (lab[1],)) if lab[0] == "v" else ("!", tuple(lab[1]))
+        if old is not None:
+            if old[0] == "=" and new[0] == "=" and old[1] != new[1]:
+                return None
+            if old[0] == "=" and new[0] == "!" and old[1][0] in new[1]:
+                return None
+            if old[0] == "!" and new[0] == "=" and new[1][0] in old[1]:
+                return None
+            if old[0] == "=":
+                new = old
+            elif new[0] == "!":
+                new = ("!", tuple(sorted(set(old[1]) | set(new[1]))))
+        cur[dkey] = new
+        env2 = dict(env)
+        env2["?d"] = tuple(sorted(cur.items()))
+        return env2
 
     def _loop_summary(self, fn, head, body, backs, env, loops):
         """A `for x in <list>` loop: add S(list){per-iteration growth} to every tracked vector
@@ -353,8 +398,10 @@ class Lengths:
             if len(ds) == 1:
                 itn = simp(ds[0])
         list_name = self._list_name(itn)
-        tracked = list(env.keys())
+        tracked = [k for k in env.keys() if k != "?d"]
         zero = {k: [Form()] for k in tracked}
+        if "?d" in env:
+            zero["?d"] = env["?d"]
         inner_loops = [(h, bd, bk) for h, bd, bk in loops if h != head and h in body]
         if inner_loops:
             raise Unknown("nested loops in %s" % short(fn.norm))
@@ -381,10 +428,10 @@ class Lengths:
                 self._add(env, k, forms)
 
     def _freeze(self, env):
-        return tuple(sorted((k, tuple(sorted({tuple(sorted(f.t.items())) for f in v}))) for k, v in env.items()))
+        return tuple(sorted((k, v if k == "?d" else tuple(sorted({tuple(sorted(f.t.items())) for f in v}))) for k, v in env.items()))
 
     def _thaw(self, st):
-        return {k: [Form(dict(x)) for x in v] for k, v in st}
+        return {k: (v if k == "?d" else [Form(dict(x)) for x in v]) for k, v in st}
 
     def _parse(self, key):
         f = Form()
@@ -461,7 +508,13 @@ class Lengths:
             tgt = mut_target(args[0])
             if tgt is None:
                 raise Unknown("extend on %s" % expr_str(args[0])[:60])
-            self._add(env, tgt, self.value_forms(simp(args[1]), env))
+            raw = t["args"][1] if len(t["args"]) > 1 else {}
+            rawn = fn.place_str(raw["place"]) if raw.get("k") in ("move", "copy") and not raw["place"]["proj"] else None
+            if rawn is not None and rawn in env and rawn != "?d":
+                # a byte vector built on this very path (the value a spliced helper returned)
+                self._add(env, tgt, env[rawn])
+            else:
+                self._add(env, tgt, self.value_forms(simp(args[1]), env))
             return
         if last in ("push", "insert") and nm.startswith("std::vec::Vec"):
             tgt = mut_target(args[0])
